@@ -4,6 +4,7 @@ from __future__ import annotations
 
 import ast
 import operator as op
+import os
 import re
 from typing import Any, Dict, List, Optional, Set, Tuple, Union
 
@@ -91,6 +92,16 @@ _CMP = {
 }
 
 ANALOG_PIN_RE = re.compile(r"^A\d+$")
+
+# Verification hook (add-only, inert unless REDUINO_VERIF=1): lines the statement
+# parser skips without translating them are recorded here as
+# (scope, depth, stripped line, reason) so that an external checker can audit them.
+_VERIF_IGNORED: List[Tuple[str, int, str, str]] = []
+
+
+def _verif_note_ignored(scope: str, depth: int, line: str, reason: str) -> None:
+    if os.environ.get("REDUINO_VERIF") == "1":
+        _VERIF_IGNORED.append((scope, depth, line, reason))
 
 
 def _escape_string_literal(value: str) -> str:
@@ -4303,6 +4314,7 @@ def _parse_simple_lines(
                 and isinstance(expr_node.func, ast.Name)
                 and expr_node.func.id == "print"
             ):
+                _verif_note_ignored(scope, depth, line, "print")
                 i += 1
                 continue
             try:
@@ -4351,12 +4363,14 @@ def _parse_simple_lines(
                 else:
                     try:
                         _eval_const(line, vars)
+                        _verif_note_ignored(scope, depth, line, "constant-expression")
                     except Exception:
                         body.append(ExprStmt(expr=expr_c))
                 i += 1
                 continue
 
         # unknown → ignore
+        _verif_note_ignored(scope, depth, line, "unknown")
         i += 1
 
     return body
